@@ -435,3 +435,164 @@ pub fn add_h2_cluster(w: &mut WorkerHandle, front: SocketAddr, back: SocketAddr,
     }));
     std::thread::sleep(Duration::from_millis(300));
 }
+
+/// like `add_h2_cluster`, with its own cluster id (several h2c clusters behind one frontend)
+pub fn add_h2_cluster_named(w: &mut WorkerHandle, front: SocketAddr, back: SocketAddr, prefix: &str, id: &str) {
+    let fa: SocketAddress = front.into();
+    w.send(RequestType::AddCluster(Cluster { cluster_id: id.into(), http2: Some(true), ..Default::default() }));
+    w.send(RequestType::AddHttpsFrontend(RequestHttpFrontend {
+        cluster_id: Some(id.into()),
+        address: fa,
+        hostname: "localhost".into(),
+        path: PathRule::prefix(prefix.to_string()),
+        position: RulePosition::Tree.into(),
+        ..Default::default()
+    }));
+    w.send(RequestType::AddBackend(AddBackend {
+        cluster_id: id.into(),
+        backend_id: format!("{id}-0"),
+        address: back.into(),
+        load_balancing_parameters: Some(LoadBalancingParams::default()),
+        sticky_id: None,
+        backup: None,
+    }));
+    std::thread::sleep(Duration::from_millis(300));
+}
+
+/// body a faulty response announces and (when it is allowed to finish) delivers
+pub const FAULT_BODY: usize = 3000;
+/// bytes of it sent before the fault
+pub const FAULT_SENT: usize = 1000;
+
+/// An h2c backend that misbehaves on request: the request path selects the fault (`.../fault/<name>`),
+/// any other path is answered `200 h2pong` once the request is complete.  Faults (stream = the request's):
+///   rst_first      RST_STREAM(INTERNAL_ERROR) instead of a response
+///   refused        RST_STREAM(REFUSED_STREAM) instead of a response (RFC 9113 8.7: safe to retry)
+///   goaway_first   GOAWAY(NO_ERROR, last stream id below this stream) instead of a response, connection kept open
+///   close_first    the TCP connection is closed instead of a response
+///   rst_mid        HEADERS 200 (content-length FAULT_BODY) + FAULT_SENT bytes of DATA, then RST_STREAM(INTERNAL_ERROR)
+///   close_mid      the same, then the TCP connection is closed
+///   stall_mid      the same, then nothing more on this stream (the connection keeps serving other streams)
+///   goaway_mid     the same, then GOAWAY(NO_ERROR, last stream id = this stream), then the rest of the body with END_STREAM
+/// `log` receives one line per event (`conn N`, `req <sid> <path>`, `fault <sid> <name>`, `rst-in <sid> <code>`).
+pub fn h2c_fault_backend(listener: TcpListener, log: std::sync::mpsc::Sender<String>) {
+    let mut nconn = 0usize;
+    for s in listener.incoming() {
+        let Ok(mut s) = s else { continue };
+        nconn += 1;
+        let log = log.clone();
+        let _ = log.send(format!("conn {nconn}"));
+        std::thread::spawn(move || {
+            let _ = s.set_read_timeout(Some(Duration::from_secs(20)));
+            let mut acc: Vec<u8> = vec![];
+            let mut buf = [0u8; 65536];
+            while acc.len() < 24 {
+                match s.read(&mut buf) {
+                    Ok(0) | Err(_) => return,
+                    Ok(n) => acc.extend_from_slice(&buf[..n]),
+                }
+            }
+            acc.drain(..24);
+            let _ = s.write_all(&settings(&[]));
+            let _ = s.write_all(&frame(T_WU, 0, 0, &(1u32 << 24).to_be_bytes()));
+            let mut dec = loona_hpack::Decoder::new();
+            let mut paths: std::collections::HashMap<u32, String> = std::collections::HashMap::new();
+            let mut owed_conn = 0u32;
+            loop {
+                let (frames, used) = parse_frames(&acc);
+                acc.drain(..used);
+                for f in frames {
+                    match f.t {
+                        T_SETTINGS if f.flags & 1 == 0 => {
+                            let _ = s.write_all(&frame(T_SETTINGS, 1, 0, &[]));
+                        }
+                        T_PING if f.flags & 1 == 0 => {
+                            let _ = s.write_all(&frame(T_PING, 1, 0, &f.payload));
+                        }
+                        T_RST => {
+                            let _ = log.send(format!("rst-in {} {}", f.sid, f.code().unwrap_or(999)));
+                        }
+                        T_HEADERS | T_DATA => {
+                            if f.t == T_HEADERS {
+                                let mut path = String::new();
+                                // (no PRIORITY / padding flags from sozu's encoder)
+                                let _ = dec.decode_with_cb(&f.payload, |k, v| {
+                                    if &k[..] == b":path" {
+                                        path = String::from_utf8_lossy(&v).into_owned();
+                                    }
+                                });
+                                let _ = log.send(format!("req {} {}", f.sid, path));
+                                paths.insert(f.sid, path);
+                            } else if !f.payload.is_empty() {
+                                owed_conn += f.payload.len() as u32;
+                                if owed_conn >= 32768 {
+                                    let _ = s.write_all(&frame(T_WU, 0, 0, &owed_conn.to_be_bytes()));
+                                    owed_conn = 0;
+                                }
+                            }
+                            if f.flags & 1 == 0 {
+                                continue;
+                            }
+                            let path = paths.remove(&f.sid).unwrap_or_default();
+                            let fault = path.split("/fault/").nth(1).unwrap_or("").to_string();
+                            if !fault.is_empty() {
+                                let _ = log.send(format!("fault {} {}", f.sid, fault));
+                            }
+                            // HEADERS 200 with `content-length: FAULT_BODY` (literal without indexing, new name)
+                            let mut head = vec![0x88, 0x00, 14];
+                            head.extend_from_slice(b"content-length");
+                            let cl = FAULT_BODY.to_string();
+                            head.push(cl.len() as u8);
+                            head.extend_from_slice(cl.as_bytes());
+                            let partial = [frame(T_HEADERS, 4, f.sid, &head), frame(T_DATA, 0, f.sid, &vec![b'f'; FAULT_SENT])].concat();
+                            match fault.as_str() {
+                                "rst_first" => {
+                                    let _ = s.write_all(&frame(T_RST, 0, f.sid, &2u32.to_be_bytes()));
+                                }
+                                "refused" => {
+                                    let _ = s.write_all(&frame(T_RST, 0, f.sid, &7u32.to_be_bytes()));
+                                }
+                                "goaway_first" => {
+                                    let mut p = (f.sid.saturating_sub(2)).to_be_bytes().to_vec();
+                                    p.extend_from_slice(&0u32.to_be_bytes());
+                                    let _ = s.write_all(&frame(T_GOAWAY, 0, 0, &p));
+                                }
+                                "close_first" => return,
+                                "rst_mid" => {
+                                    let _ = s.write_all(&partial);
+                                    let _ = s.write_all(&frame(T_RST, 0, f.sid, &2u32.to_be_bytes()));
+                                }
+                                "close_mid" => {
+                                    let _ = s.write_all(&partial);
+                                    std::thread::sleep(Duration::from_millis(100));
+                                    return;
+                                }
+                                "stall_mid" => {
+                                    let _ = s.write_all(&partial);
+                                }
+                                "goaway_mid" => {
+                                    let _ = s.write_all(&partial);
+                                    let mut p = f.sid.to_be_bytes().to_vec();
+                                    p.extend_from_slice(&0u32.to_be_bytes());
+                                    let _ = s.write_all(&frame(T_GOAWAY, 0, 0, &p));
+                                    let _ = s.write_all(&frame(T_DATA, 1, f.sid, &vec![b'f'; FAULT_BODY - FAULT_SENT]));
+                                }
+                                _ => {
+                                    let mut resp = frame(T_HEADERS, 4, f.sid, &[0x88]);
+                                    resp.extend(frame(T_DATA, 1, f.sid, b"h2pong"));
+                                    let _ = s.write_all(&resp);
+                                }
+                            }
+                        }
+                        T_GOAWAY => return,
+                        _ => {}
+                    }
+                }
+                match s.read(&mut buf) {
+                    Ok(0) | Err(_) => return,
+                    Ok(n) => acc.extend_from_slice(&buf[..n]),
+                }
+            }
+        });
+    }
+}
